@@ -18,6 +18,10 @@ def sh(cmd, cwd=None, timeout=3000):
 
 def demo_dir(demo_path):
     head = open(demo_path).read(600)
+    import re
+    m = re.search(r"place in:?\s*(\S+)", head)
+    if m:
+        return m.group(1).strip("`.,")
     for cand in ("pkg/jsonline", "pkg/cast", "cmd/jl"):
         if cand in head:
             return cand
